@@ -603,3 +603,167 @@ Theorem hoisted_moves_lines :
 Proof. exact ListsParse.hoisted_moves_lines. Qed.
 Print Assumptions hoisted_moves_lines.
 
+
+(* ---- moves() at program level (MovesProgram.v): compiled_moves_argument: for every accepted source, every command of every body
+   whose argument k was written moves( src ) with src a list of the grammar: the argument is a label l, exactly ONE movement l (local)
+   is in the program with the literals of expand src, its block is in the output for both settings - the label, one line per
+   expanded step up to and including the first written step_end, else all steps and exactly one step_end. lex_idents_no_colon
+   discharges ListsParse's 'identifiers contain no colon'. compiled_moves_arguments_share: two such arguments are the same label IFF
+   their expanded steps coincide. compiled_every_moves_argument: every moves() argument of every command, poryswitch inside
+   included, no grammar premise. ---- *)
+From Pory Require MovesProgram. Open Scope list_scope.
+Theorem command_position :
+  forall (autovars : list (text * autovar)) (switches : list (text * text)) (parse_format : toks -> Parser.res (token * text * text * toks)),
+  (forall (ts : toks) (tk : token) (v sty : text) (ts' : toks),
+   parse_format ts = Parser.Ok (tk, v, sty, ts') -> forall a : toks, Consume.advs a ts -> Consume.advs a ts') ->
+  forall (T : toks) (p : program),
+  parse_program autovars switches true parse_format T = Parser.Ok p ->
+  forall (script : text) (c : cmd),
+  In (script, c) (HoistProgram.named_cmds (tops p)) ->
+  exists pre ts : list token,
+    T = pre ++ ts /\
+    Datatypes.length ts = Ast.cid c /\
+    (exists (consts : list (text * text)) (f : nat) (c0 : cmd) (impc : impdata) (ts1 : toks),
+       command_stmt switches true parse_format consts f script ts = Parser.Ok (c0, impc, ts1) /\
+       cname c = cname c0 /\ ctok c = ctok c0 /\ Ast.cid c = Ast.cid c0 /\ Datatypes.length (cargs c) = Datatypes.length (cargs c0)).
+Proof. exact MovesProgram.command_position. Qed.
+Print Assumptions command_position.
+
+Theorem program_moves_argument_label :
+  forall (autovars : list (text * autovar)) (switches : list (text * text)) (parse_format : toks -> Parser.res (token * text * text * toks)),
+  (forall (ts : toks) (tk : token) (v sty : text) (ts' : toks),
+   parse_format ts = Parser.Ok (tk, v, sty, ts') -> forall a : toks, Consume.advs a ts -> Consume.advs a ts') ->
+  forall (T : toks) (p : program),
+  parse_program autovars switches true parse_format T = Parser.Ok p ->
+  forall (script : text) (c : cmd),
+  In (script, c) (HoistProgram.named_cmds (tops p)) ->
+  forall (name : token) (k : nat) (src mv : list token),
+  MovesProgram.written_moves switches parse_format T c name k src mv ->
+  mv = ListsParse.expand src /\
+  cname c = tlit name /\
+  ctok c = name /\
+  (exists (st : pstate) (l : text),
+     parse_tops autovars switches true parse_format (5 * Datatypes.length T + 4) Hoisting.pstate0 T = Parser.Ok st /\
+     nth_error (cargs c) k = Some l /\ assoc (hmset (ph st)) (mov_key (ListsParse.expand src)) = Some l).
+Proof. exact MovesProgram.program_moves_argument_label. Qed.
+Print Assumptions program_moves_argument_label.
+
+Theorem program_moves_argument :
+  forall (autovars : list (text * autovar)) (switches : list (text * text)) (parse_format : toks -> Parser.res (token * text * text * toks)),
+  (forall (ts : toks) (tk : token) (v sty : text) (ts' : toks),
+   parse_format ts = Parser.Ok (tk, v, sty, ts') -> forall a : toks, Consume.advs a ts -> Consume.advs a ts') ->
+  forall (T : toks) (p : program),
+  parse_program autovars switches true parse_format T = Parser.Ok p ->
+  forall (script : text) (c : cmd),
+  In (script, c) (HoistProgram.named_cmds (tops p)) ->
+  forall (name : token) (k : nat) (src mv : list token),
+  MovesProgram.written_moves switches parse_format T c name k src mv ->
+  mv = ListsParse.expand src /\
+  cname c = tlit name /\
+  ctok c = name /\
+  (exists (l : text) (tk : token) (steps : list token),
+     nth_error (cargs c) k = Some l /\
+     In (TMovement l false tk steps) (tops p) /\
+     (forall (g' : bool) (tk' : token) (steps' : list token),
+      In (TMovement l g' tk' steps') (tops p) -> g' = false /\ tk' = tk /\ steps' = steps) /\
+     Datatypes.length (filter (Hoisting.is_mov_named l) (tops p)) = 1 /\
+     mov_key steps = mov_key (ListsParse.expand src) /\
+     ((forall x : token, In x src -> ttype x = IDENT -> Hoisting.no_colon x) ->
+      Forall Hoisting.no_colon steps -> map tlit steps = map tlit (ListsParse.expand src)) /\
+     (forall (optimize : bool) (mp : option text) (out : list instr),
+      emit_program_instrs optimize mp p = Ok out ->
+      exists x y : list instr, out = x ++ (marker mp (tline tk) ++ ILabel l false :: emit_steps mp steps) ++ y)).
+Proof. exact MovesProgram.program_moves_argument. Qed.
+Print Assumptions program_moves_argument.
+
+Theorem program_movement_steps_from_stream :
+  forall (autovars : list (text * autovar)) (switches : list (text * text)) (env_errors : bool)
+    (parse_format : toks -> Parser.res (token * text * text * toks)),
+  (forall (ts : toks) (tk : token) (v sty : text) (ts' : toks),
+   parse_format ts = Parser.Ok (tk, v, sty, ts') -> forall a : toks, Consume.advs a ts -> Consume.advs a ts') ->
+  forall (ts : toks) (p : program),
+  parse_program autovars switches env_errors parse_format ts = Parser.Ok p ->
+  forall (n : text) (g : bool) (tk : token) (steps : list token),
+  In (TMovement n g tk steps) (tops p) -> Forall (fun x : token => In x ts /\ ttype x = IDENT) steps.
+Proof. exact MovesProgram.program_movement_steps_from_stream. Qed.
+Print Assumptions program_movement_steps_from_stream.
+
+Theorem lex_idents_no_colon :
+  forall (hl hd hs : N -> bool) (s : text) (x : token), In x (lex hl hd hs s) -> ttype x = IDENT -> Hoisting.no_colon x.
+Proof. exact MovesProgram.lex_idents_no_colon. Qed.
+Print Assumptions lex_idents_no_colon.
+
+Theorem compiled_movement_steps :
+  forall (hl hd hs : N -> bool) (autovars : list (text * autovar)) (switches : list (text * text)) (fc : Format.fontcfg) 
+    (cli_font : text) (cli_maxlen : Z) (s : text) (p : program),
+  parse_program autovars switches true (Format.parse_format fc cli_font cli_maxlen true) (lex hl hd hs s) = Parser.Ok p ->
+  forall (n : text) (g : bool) (tk : token) (steps : list token),
+  In (TMovement n g tk steps) (tops p) -> Forall (fun x : token => In x (lex hl hd hs s) /\ ttype x = IDENT /\ Hoisting.no_colon x) steps.
+Proof. exact MovesProgram.compiled_movement_steps. Qed.
+Print Assumptions compiled_movement_steps.
+
+Theorem compiled_moves_argument :
+  forall (hl hd hs : N -> bool) (autovars : list (text * autovar)) (switches : list (text * text)) (fc : Format.fontcfg) 
+    (cli_font : text) (cli_maxlen : Z) (s : text) (p : program),
+  parse_program autovars switches true (Format.parse_format fc cli_font cli_maxlen true) (lex hl hd hs s) = Parser.Ok p ->
+  forall (script : text) (c : cmd),
+  In (script, c) (HoistProgram.named_cmds (tops p)) ->
+  forall (name : token) (k : nat) (src mv : list token),
+  MovesProgram.written_moves switches (Format.parse_format fc cli_font cli_maxlen true) (lex hl hd hs s) c name k src mv ->
+  exists (l : text) (tk : token) (steps : list token),
+    nth_error (cargs c) k = Some l /\
+    In (TMovement l false tk steps) (tops p) /\
+    (forall (g' : bool) (tk' : token) (steps' : list token), In (TMovement l g' tk' steps') (tops p) -> g' = false /\ tk' = tk /\ steps' = steps) /\
+    Datatypes.length (filter (Hoisting.is_mov_named l) (tops p)) = 1 /\
+    map tlit steps = map tlit (ListsParse.expand src) /\
+    (forall (optimize : bool) (mp : option text) (out : list instr),
+     emit_program_instrs optimize mp p = Ok out ->
+     exists x y : list instr, out = x ++ (marker mp (tline tk) ++ ILabel l false :: emit_steps mp steps) ++ y) /\
+    (forall (optimize : bool) (out : list instr),
+     emit_program_instrs optimize None p = Ok out ->
+     exists x y : list instr, out = x ++ (ILabel l false :: map (fun s0 : list N => ILine (tab ++ s0)) (steps_out (ListsParse.expand src))) ++ y) /\
+    (Forall ListsParse.not_end (ListsParse.expand src) -> steps_out (ListsParse.expand src) = map tlit (ListsParse.expand src) ++ [t "step_end"]) /\
+    (forall (b : list token) (e : token) (post : list token),
+     ListsParse.expand src = b ++ e :: post ->
+     Forall ListsParse.not_end b -> tlit e = t "step_end" -> steps_out (ListsParse.expand src) = map tlit b ++ [t "step_end"]).
+Proof. exact MovesProgram.compiled_moves_argument. Qed.
+Print Assumptions compiled_moves_argument.
+
+Theorem compiled_moves_arguments_share :
+  forall (hl hd hs : N -> bool) (autovars : list (text * autovar)) (switches : list (text * text)) (fc : Format.fontcfg) 
+    (cli_font : text) (cli_maxlen : Z) (s : text) (p : program),
+  parse_program autovars switches true (Format.parse_format fc cli_font cli_maxlen true) (lex hl hd hs s) = Parser.Ok p ->
+  forall (s1 : text) (c1 : cmd) (s2 : text) (c2 : cmd),
+  In (s1, c1) (HoistProgram.named_cmds (tops p)) ->
+  In (s2, c2) (HoistProgram.named_cmds (tops p)) ->
+  forall (n1 : token) (k1 : nat) (src1 mv1 : list token) (n2 : token) (k2 : nat) (src2 mv2 : list token),
+  MovesProgram.written_moves switches (Format.parse_format fc cli_font cli_maxlen true) (lex hl hd hs s) c1 n1 k1 src1 mv1 ->
+  MovesProgram.written_moves switches (Format.parse_format fc cli_font cli_maxlen true) (lex hl hd hs s) c2 n2 k2 src2 mv2 ->
+  nth_error (cargs c1) k1 = nth_error (cargs c2) k2 <-> map tlit (ListsParse.expand src1) = map tlit (ListsParse.expand src2).
+Proof. exact MovesProgram.compiled_moves_arguments_share. Qed.
+Print Assumptions compiled_moves_arguments_share.
+
+Theorem compiled_every_moves_argument :
+  forall (hl hd hs : N -> bool) (autovars : list (text * autovar)) (switches : list (text * text)) (fc : Format.fontcfg) 
+    (cli_font : text) (cli_maxlen : Z) (s : text) (p : program),
+  parse_program autovars switches true (Format.parse_format fc cli_font cli_maxlen true) (lex hl hd hs s) = Parser.Ok p ->
+  forall (script : text) (c : cmd),
+  In (script, c) (HoistProgram.named_cmds (tops p)) ->
+  cargs c = [] \/
+  (exists (pre : list token) (name lp : token) (a : CmdArgs.arglist) (rp : token) (rest : list token),
+     lex hl hd hs s = pre ++ name :: lp :: CmdArgs.arg_tokens a ++ rp :: rest /\
+     Ast.cid c = Datatypes.length (name :: lp :: CmdArgs.arg_tokens a ++ rp :: rest) /\
+     ttype lp = LPAREN /\
+     ttype rp = RPAREN /\
+     CmdConverse.wf_args_at switches true (Format.parse_format fc cli_font cli_maxlen true) a (rp :: rest) /\
+     CmdArgs.balanced (CmdArgs.flat a) /\
+     cname c = tlit name /\
+     ctok c = name /\
+     Datatypes.length (cargs c) = Datatypes.length (CmdArgs.strip_last_empty (CmdArgs.groups_of a)) /\
+     (forall (k : nat) (g1 : list CmdArgs.piece) (lt : list token) (clo : token) (mv : list token) (g2 : list CmdArgs.piece),
+      nth_error (CmdArgs.groups_of a) k = Some (g1 ++ CmdArgs.PMoves lt clo mv :: g2) ->
+      Forall (fun q : CmdArgs.piece => MovesProgram.is_moves q = false) g2 ->
+      MovesProgram.moves_block_compiled switches (lex hl hd hs s) p c k lt clo mv)).
+Proof. exact MovesProgram.compiled_every_moves_argument. Qed.
+Print Assumptions compiled_every_moves_argument.
+
